@@ -22,7 +22,7 @@ RULE = ("(i) generic module/vector classes for every supported geometry on const
         "Non-trivial = on the rotated copy the match crossed the origin (observed end > length); distinct = distinct (class, sequence, rotation).")
 ASSUMPTIONS = ["records over ACGT with a unique structure occurrence", "exceptions are compared by class"]
 FLOORS = {"c02_comparisons": 3000, "c02_wrapped_matches": 1000, "c02_assembly_comparisons": 100, "c02_registry_items": 40}
-MUST_REACH = ["DNARegex.search", "SeqMatch.group", "CircularRecord.__rshift__"]
+MUST_REACH = ["DNARegex.search", "SeqMatch.group", "CircularRecord.__rshift__|CircularRecord.__lshift__"]
 NEEDS_REGISTRIES = True
 BUDGET_S = {"quick": 900, "thorough": 7200}
 
